@@ -1,7 +1,9 @@
 #!/venv/bin/python
 """Apply a seeded change to /repo, run checks against it, undo it.
 
-usage: seed_eval.py <patch.diff> [--tier quick] [--seed N] [C01 C02 ...]
+usage: seed_eval.py <patch.diff> [--tier quick] [--seed N] [--tree DIR] [C01 ...]
+--tree DIR: evaluate in a scratch worktree DIR (pre-screening while /repo is in
+use): the checks then import pdb2pqr from DIR (VERIF_REPO / PYTHONPATH).
 Prints one line per check: rc, number of VIOLATION lines, first signatures.
 /repo is always restored (git apply -R, then verified clean).
 """
@@ -21,7 +23,7 @@ def sh(cmd, **kw):
 def main():
     args = sys.argv[1:]
     patch = os.path.abspath(args.pop(0))
-    tier, seed = "quick", "0"
+    tier, seed, tree = "quick", "0", "/repo"
     checks = []
     while args:
         a = args.pop(0)
@@ -29,14 +31,17 @@ def main():
             tier = args.pop(0)
         elif a == "--seed":
             seed = args.pop(0)
+        elif a == "--tree":
+            tree = os.path.abspath(args.pop(0))
         else:
             checks.append(a.upper())
     checks = checks or ALL
-    st = sh("git -C /repo status --short")
-    if st.stdout.strip():
-        print("refusing: /repo is not clean:\n" + st.stdout)
+    st = sh(f"git -C {tree} status --short")
+    dirty = [l for l in st.stdout.splitlines() if "dx2cube" not in l]
+    if dirty:
+        print(f"refusing: {tree} is not clean:\n" + st.stdout)
         return 2
-    r = sh(f"git -C /repo apply {patch}")
+    r = sh(f"git -C {tree} apply {patch}")
     if r.returncode:
         print("patch does not apply:", r.stderr)
         return 2
@@ -45,6 +50,9 @@ def main():
         for c in checks:
             t0 = time.time()
             env = dict(os.environ, VERIF_SEED=seed)
+            if tree != "/repo":
+                env["VERIF_REPO"] = tree
+                env["PYTHONPATH"] = tree
             p = subprocess.run(["/venv/bin/python", "-m", "mc.run", c, tier],
                                cwd="/verif", capture_output=True, text=True,
                                env=env)
@@ -61,11 +69,11 @@ def main():
                   f"wall={results[c]['wall']}s sigs={sigs[:3]} {herr[:1]}",
                   flush=True)
     finally:
-        r = sh(f"git -C /repo apply -R {patch}")
+        r = sh(f"git -C {tree} apply -R {patch}")
         if r.returncode:
             print("WARNING: reverse apply failed, using checkout:", r.stderr)
-            sh("git -C /repo checkout -- .")
-        st = sh("git -C /repo status --short")
+            sh(f"git -C {tree} checkout -- .")
+        st = sh(f"git -C {tree} status --short")
         print("repo status after restore:", repr(st.stdout.strip()))
     print("RESULT=" + json.dumps(results))
     return 0
